@@ -87,6 +87,11 @@ func stackVariants(full bool) []struct {
 		{"f(1,p1)+h(3)", stack.Stack{Calls: []stack.Call{MkCall(F, FILE, 10, 0, stack.Args{Values: []stack.Arg{Sc(1), Sc(p1)}}), MkCall("main.h", FILE, 20, 0, stack.Args{Values: []stack.Arg{Sc(3)}})}}},
 		{"f(1,p2)+h(4)", stack.Stack{Calls: []stack.Call{MkCall(F, FILE, 10, 0, stack.Args{Values: []stack.Arg{Sc(1), Sc(p2)}}), MkCall("main.h", FILE, 20, 0, stack.Args{Values: []stack.Arg{Sc(4)}})}}},
 	}
+	// same value printed as inaccurate ("0x1?"): the properties do not let this flag separate goroutines,
+	// and it must not make the relation non-transitive either
+	inacc := Sc(1)
+	inacc.IsInaccurate = true
+	out = append(out, sv{"f(1?,p1)", one(F, FILE, 10, inacc, Sc(p1))})
 	el := one(F, FILE, 10, Sc(1), Sc(p1))
 	el.Elided = true
 	out = append(out, sv{"f(1,p1) elided-frames", el})
